@@ -307,6 +307,7 @@ theorem removal_event_before_locked (w : World) (e : Entity) (d : Delivery) (h :
   | some p => simp [hal, World.fail] at h
   | none =>
   simp only [hal] at h
+  unfold notifyRemoval at h
   cases hL : w.listener with
   | none => simp [hL] at h
   | some L =>
